@@ -279,7 +279,9 @@ def exec (env : Env) (fs : FS) : Call → FS × Ret
       else if !fs.isDir (parent dst) then (fs, .err .notFound)
       else if !env.reflinkOK then (fs, .err .other)
       else (fs.put dst (.file b), .unit)
-    | .error e => (fs, .err e)
+    -- reflink-copy refuses a source that is not an existing regular file with `InvalidInput`
+    -- (before it looks at the destination)
+    | .error _ => (fs, .err .other)
   | .walk p =>
     match fs.get p with
     | some .dir => (fs, .entries ((p, true) :: (fs.below p).map (fun q => (q, fs.get q == some .dir))))
